@@ -50,6 +50,9 @@ vars == <<cuts, corrupt, ignore, eofdata, pos, phase, cur, got, short, restored,
 Start(in) == /\ cuts = in.cuts /\ corrupt = in.corrupt /\ ignore = in.ignore /\ eofdata = in.eofdata
              /\ pos = 1 /\ phase = "magic" /\ cur = 0 /\ got = 0 /\ short = FALSE
              /\ restored = {} /\ count = 0 /\ fail = 0 /\ res = "run"
+StartNext(in) == /\ cuts' = in.cuts /\ corrupt' = in.corrupt /\ ignore' = in.ignore /\ eofdata' = in.eofdata
+                 /\ pos' = 1 /\ phase' = "magic" /\ cur' = 0 /\ got' = 0 /\ short' = FALSE
+                 /\ restored' = {} /\ count' = 0 /\ fail' = 0 /\ res' = "run"
 Init == \E c \in SUBSET (1..Total - 1), k \in SUBSET Recs, ig \in BOOLEAN, ed \in BOOLEAN :
           /\ Cardinality(c) <= MaxCuts
           /\ Start([cuts |-> c, corrupt |-> k, ignore |-> ig, eofdata |-> ed])
